@@ -23,6 +23,8 @@ REQUIRED_PROBES = ("deliveries", "late_resolutions", "explicit_wins", "checks", 
 
 REAL_VS_STUB = {'real': ['ak.color (parser, incremental resolution, palettes, global/synced palettes), component palettes of ak.ppobj / ak.hdoc / ak.ghist'], 'stub': ['nothing of the package; synthetic component classes are created with type(); process-global state -> fresh forked process per run; reference report in a pristine forked process']}
 
+ASSUMPTIONS = ['the independent resolver in sim/models/color_model.py implements the documented grammar and the inheritance rule of the statement', 'description sets are acyclic and no two parties describe one id differently, except explicit configuration vs component (explicit must win)', 'after a poisoned batch its ids and every id whose chain touches them are quarantined for the rest of the run']
+
 RULE = ("each run = one acyclic description set (explicit nested config overriding built-in/component/user ids, 1-4 "
         "synthetic components with PARENT_PALETTES, real components, user ids; every section form, '-', '', names, "
         "ints, rgb, greys, modifiers and no_ modifiers) delivered under one seeded schedule (component first uses in "
